@@ -540,7 +540,11 @@ def _native_reproduces_one(output, desc):
     if "kani::assume should always hold" in output:
         return False
     if "placeholder message" in desc or desc in ("?", ""):
-        return True
+        # any panic of the code under test counts - but not Kani's own end-of-playback panic
+        # ("there were still these concrete values left over": the padded vector was not used up,
+        # i.e. the run reached the end of the harness without failing)
+        own = [l for l in output.splitlines() if "panicked at" in l and "concrete_playback.rs" not in l]
+        return bool(own)
     key = desc.strip('"')
     key = key.split(":")[0] if key.startswith("index out of bounds") else key
     return key[:40] in output
